@@ -57,6 +57,9 @@ list_t              *snoopy_tsrm_threadRepo = &snoopy_tsrm_threadRepo_data;
  * Non-exported function prototypes
  */
 void                        snoopy_tsrm_init                      ();
+void                        snoopy_tsrm_atfork_prepare            ();
+void                        snoopy_tsrm_atfork_parent             ();
+void                        snoopy_tsrm_atfork_child              ();
 int                         snoopy_tsrm_doesThreadRepoEntryExist  (snoopy_tsrm_threadId_t threadId, int mutex_already_locked);
 snoopy_tsrm_threadId_t      snoopy_tsrm_getCurrentThreadId        ();
 listNode_t*                 snoopy_tsrm_getCurrentThreadRepoEntry ();
@@ -165,6 +168,65 @@ void snoopy_tsrm_init ()
     pthread_mutexattr_init   (&snoopy_tsrm_threadRepo_mutexAttr);
     pthread_mutexattr_settype(&snoopy_tsrm_threadRepo_mutexAttr, PTHREAD_MUTEX_RECURSIVE);
     pthread_mutex_init       (&snoopy_tsrm_threadRepo_mutex, &snoopy_tsrm_threadRepo_mutexAttr);
+
+    // Make fork() in a multithreaded program safe (see the handlers below)
+    pthread_atfork(&snoopy_tsrm_atfork_prepare, &snoopy_tsrm_atfork_parent, &snoopy_tsrm_atfork_child);
+}
+
+
+
+/*
+ * snoopy_tsrm_atfork_*
+ *
+ * Description:
+ *     fork() handlers. If a program forks while another one of its threads is inside Snoopy
+ *     and holds the threadRepo mutex, the child inherits a locked mutex whose owner does not
+ *     exist there, and the child's first exec() call blocks forever. Therefore fork() only
+ *     proceeds while we are holding the mutex ourselves (the thread repo is in a consistent
+ *     state then); afterwards the parent releases it and the child initializes it anew. The
+ *     child also forgets about all the other threads, as they do not exist in the child process.
+ *
+ * Params:
+ *     (none)
+ *
+ * Return:
+ *     void
+ */
+void snoopy_tsrm_atfork_prepare ()
+{
+    pthread_mutex_lock(&snoopy_tsrm_threadRepo_mutex);
+}
+
+void snoopy_tsrm_atfork_parent ()
+{
+    pthread_mutex_unlock(&snoopy_tsrm_threadRepo_mutex);
+}
+
+void snoopy_tsrm_atfork_child ()
+{
+    snoopy_tsrm_threadId_t      myThreadId;
+    listNode_t                 *curNode;
+    listNode_t                 *nextNode;
+    snoopy_tsrm_threadData_t   *tData;
+
+    myThreadId = snoopy_tsrm_getCurrentThreadId();
+
+    curNode = snoopy_util_list_fetchNextNode(snoopy_tsrm_threadRepo, NULL);
+    while (NULL != curNode) {
+        nextNode = snoopy_util_list_fetchNextNode(snoopy_tsrm_threadRepo, curNode);
+        tData    = curNode->value;
+        if ((NULL != tData) && (0 == pthread_equal(myThreadId, tData->threadId))) {
+            snoopy_util_list_remove(snoopy_tsrm_threadRepo, curNode);
+            free(tData->inputdatastorage);
+            free(tData->configuration);
+            free(tData);
+        }
+        curNode = nextNode;
+    }
+
+    // The mutex can not be simply unlocked here: it is a recursive one, therefore it remembers its
+    // owner by (kernel) thread ID, and that ID has changed in the child. Initialize it anew instead.
+    pthread_mutex_init(&snoopy_tsrm_threadRepo_mutex, &snoopy_tsrm_threadRepo_mutexAttr);
 }
 
 
